@@ -158,9 +158,6 @@ func ruleFragmentPop(c *Ctx, r *Report) {
 		return ok && calleeName(&call.Call) == "builtin:len"
 	}
 	guards := []guard{
-		{"sum-of-fragment-lengths == message length", func(bo *ssa.BinOp) bool {
-			return (isLoad(bo.X, "fragmentsLength") && isLoad(bo.Y, "handshakeLength")) || (isLoad(bo.Y, "fragmentsLength") && isLoad(bo.X, "handshakeLength"))
-		}},
 		{"len(reassembled body) == message length", func(bo *ssa.BinOp) bool {
 			return (isLoad(bo.X, "handshakeLength") && isLenRaw(bo.Y)) || (isLoad(bo.Y, "handshakeLength") && isLenRaw(bo.X))
 		}},
@@ -188,7 +185,10 @@ func ruleFragmentPop(c *Ctx, r *Report) {
 		}
 		r.Check(!reach && instrDominatesAny(cmp, succ), rule, short(fn)+":"+g.name, c.ipos(cmp), "a message is returned only when "+g.name, "Pop can return a message although the test '"+g.name+"' fails")
 	}
-	// offset chain: a missing successor fragment ends in a nil return
+	// the body is assembled from offset 0 upwards without a gap. Two forms are recognised: a chain of
+	// presence-tested lookups by the running offset (fragments that abut exactly), and a coverage
+	// walk that, at every position, takes a stored fragment that starts at or before the position
+	// and reaches beyond it (overlapping ranges, RFC 6347 4.2.3)
 	var chainOK ssa.Value
 	for _, b := range fn.Blocks {
 		for _, in := range b.Instrs {
@@ -204,9 +204,7 @@ func ruleFragmentPop(c *Ctx, r *Report) {
 			}
 		}
 	}
-	if chainOK == nil {
-		r.Bad(rule, short(fn)+":offset-chain", c.pos(fn.Pos()), "Pop no longer walks the fragments by offset (no presence-tested lookup by running offset)")
-	} else {
+	if chainOK != nil {
 		w := (&Walk{Fn: fn, Assume: assumeAll(atomAssume{mValue(chainOK), vBool(false)})}).After(chainOK.(ssa.Instruction))
 		reach := false
 		for _, s := range succ {
@@ -215,6 +213,48 @@ func ruleFragmentPop(c *Ctx, r *Report) {
 			}
 		}
 		r.Check(!reach, rule, short(fn)+":offset-chain", c.ipos(chainOK.(ssa.Instruction)), "a gap in the offset chain yields nil", "a gap in the offset chain does not stop Pop from returning a message")
+	} else {
+		c.coverageWalk(r, rule, fn, succ)
+	}
+	// a fragment set whose lengths add up to more than the message (overlapping ranges, a longer
+	// fragment that replaced a shorter one) can still be surfaced: with every comparison of the
+	// stored total against the message length answering "larger", a message is reachable
+	{
+		isTot := func(v ssa.Value) bool { return isLoad(v, "fragmentsLength") }
+		isLen := func(v ssa.Value) bool { return isLoad(v, "handshakeLength") }
+		w := (&Walk{Fn: fn, Assume: func(v ssa.Value) (Val, bool) {
+			bo, ok := v.(*ssa.BinOp)
+			if !ok {
+				return unknown, false
+			}
+			var totLeft bool
+			switch {
+			case isTot(bo.X) && isLen(bo.Y):
+				totLeft = true
+			case isTot(bo.Y) && isLen(bo.X):
+				totLeft = false
+			default:
+				return unknown, false
+			}
+			switch bo.Op { // stored total > message length
+			case token.EQL:
+				return vBool(false), true
+			case token.NEQ:
+				return vBool(true), true
+			case token.GTR, token.GEQ:
+				return vBool(totLeft), true
+			case token.LSS, token.LEQ:
+				return vBool(!totLeft), true
+			}
+			return unknown, false
+		}}).FromEntry()
+		reach := false
+		for _, s := range succ {
+			if w.Reached[s] {
+				reach = true
+			}
+		}
+		r.Check(reach, rule, short(fn)+":overlap-tolerated", c.pos(fn.Pos()), "a complete message is surfaced although the stored fragment lengths add up to more than its length", "Pop refuses every fragment set whose lengths add up to more than the message length: after a retransmission with a different fragmentation (overlapping ranges, RFC 6347 4.2.3) all bytes are present but the message is never surfaced, and nothing the peer sends afterwards repairs it")
 	}
 	// only the success path deletes the entry and advances the cursor
 	var effects []ssa.Instruction
@@ -291,6 +331,41 @@ func ruleFragmentPop(c *Ctx, r *Report) {
 			}
 			w2.After(cmp)
 			r.Check(!stored, rule, short(pf)+":retransmit", c.ipos(cmp), "a fragment below the delivery cursor is flagged as retransmission and not stored", "a fragment of an already delivered message is stored again")
+		}
+	}
+	// a fragment whose offset is already stored is not always discarded: a longer one takes the place
+	// of a shorter (or empty) one, otherwise an empty fragment that arrives first shadows the real
+	// fragment of its offset and every retransmission of it
+	if pf := c.Fn("(*internal/fragmentbuffer.FragmentBuffer).pushHandshakeFragments"); pf != nil {
+		var present ssa.Value
+		var ups []*ssa.MapUpdate
+		for _, b := range pf.Blocks {
+			for _, in := range b.Instrs {
+				switch x := in.(type) {
+				case *ssa.Lookup:
+					if x.CommaOk && isFieldLoad(x.X, tFr, "fragmentByOffset") {
+						for _, ref := range *x.Referrers() {
+							if ex, ok := ref.(*ssa.Extract); ok && ex.Index == 1 {
+								present = ex
+							}
+						}
+					}
+				case *ssa.MapUpdate:
+					if isFieldLoad(x.Map, tFr, "fragmentByOffset") {
+						ups = append(ups, x)
+					}
+				}
+			}
+		}
+		if present != nil && len(ups) > 0 {
+			w := (&Walk{Fn: pf, Assume: assumeAll(atomAssume{mValue(present), vBool(true)})}).FromEntry()
+			replaced := false
+			for _, u := range ups {
+				if w.Reached[u] {
+					replaced = true
+				}
+			}
+			r.Check(replaced, rule, short(pf)+":longer-fragment-wins", c.ipos(ups[0]), "a stored fragment can be replaced by a longer one of the same offset", "a fragment whose offset is already stored is always discarded, whatever the two lengths: a zero-length (or shorter) fragment that arrives first occupies the offset, the fragment that carries the bytes and every retransmission of it are dropped as duplicates, and the message is never surfaced although all its bytes arrived")
 		}
 	}
 	// single consumer: Pop is called only by the record-buffering function and its private helpers
@@ -556,4 +631,381 @@ func (c *Ctx) cacheDeletes(fn *ssa.Function) []cacheDelete {
 		}
 	}
 	return out
+}
+
+// coverageWalk checks the coverage form of reassembly: the body grows only by appends of
+// fragment.data[position-offset:] where position is the current length of the body, the fragment
+// taken is assigned only under (offset <= position) and (offset + length > position), and a
+// position no stored fragment covers yields nil.
+func (c *Ctx) coverageWalk(r *Report, rule string, fn *ssa.Function, succ []*ssa.Return) {
+	key := short(fn) + ":coverage"
+	var isLenOfBody func(v ssa.Value, body ssa.Value) bool
+	isLenOfBody = func(v ssa.Value, body ssa.Value) bool {
+		v = stripConv(v)
+		// a running copy of the length: 0 on entry (the body starts empty), the length afterwards
+		if phi, ok := v.(*ssa.Phi); ok {
+			zero, length := 0, 0
+			for _, e := range phi.Edges {
+				if k, isK := constInt(stripConv(e)); isK && k == 0 {
+					zero++
+				} else if _, isPhi := stripConv(e).(*ssa.Phi); !isPhi && isLenOfBody(e, body) {
+					length++
+				} else {
+					return false
+				}
+			}
+			return zero > 0 && length > 0 && startsEmpty(body)
+		}
+		call, ok := v.(*ssa.Call)
+		if !ok || calleeName(&call.Call) != "builtin:len" {
+			return false
+		}
+		return sameAccumulator(call.Call.Args[0], body)
+	}
+	n := 0
+	for _, app := range findCalls(fn, nameIs("builtin:append")) {
+		if len(app.Call.Args) != 2 || app.Block() == nil {
+			continue
+		}
+		inLoop := false
+		for _, l := range naturalLoops(fn) {
+			if l.blocks[app.Block()] {
+				inLoop = true
+			}
+		}
+		if !inLoop {
+			continue
+		}
+		sl, ok := app.Call.Args[1].(*ssa.Slice)
+		if !ok {
+			continue
+		}
+		_, f, fragBase, ok := fieldLoad(sl.X)
+		if !ok || f != "data" {
+			continue
+		}
+		n++
+		body := app.Call.Args[0]
+		// low bound = position - offset of the same fragment
+		good := false
+		var chosen ssa.Value
+		if sl.Low != nil && sl.High == nil {
+			for _, l := range c.Origins(stripConv(sl.Low), 0) {
+				sb, ok := stripConv(l).(*ssa.BinOp)
+				if !ok || sb.Op != token.SUB {
+					continue
+				}
+				_, fo, offBase, okO := fieldLoad(sb.Y)
+				if okO && fo == "FragmentOffset" && isLenOfBody(sb.X, body) && rootValueDeep(offBase) == rootValueDeep(fragBase) {
+					good = true
+					chosen = rootValueDeep(fragBase)
+				}
+			}
+		}
+		r.Check(good, rule, key+":append", c.ipos(app), "appended bytes = fragment.data[position - fragment offset:] with position = length of the body so far", "the reassembled body is extended by bytes that are not the part of a stored fragment behind the current position (position - fragment offset): bytes are duplicated, skipped or taken from the wrong place")
+		if !good {
+			continue
+		}
+		// the chosen fragment: assigned only under offset <= position and offset+length > position
+		phi, isPhi := chosen.(*ssa.Phi)
+		if !isPhi {
+			r.Unk(rule, key+":selection", c.ipos(app), "the fragment taken is not selected in a loop over the stored fragments")
+			continue
+		}
+		sel := c.selectionGuards(fn, phi, body, isLenOfBody)
+		r.Check(sel == "", rule, key+":selection", c.ipos(app), "a fragment is taken only if it starts at or before the position and reaches beyond it", "the fragment appended at a position "+sel+": the body is assembled with a gap or does not advance")
+		// nothing covers the position: nil
+		var nilTest *ssa.BinOp
+		for _, ref := range *phi.Referrers() {
+			if bo, ok := ref.(*ssa.BinOp); ok && (bo.Op == token.EQL || bo.Op == token.NEQ) && (isNilConst(bo.X) || isNilConst(bo.Y)) {
+				nilTest = bo
+			}
+		}
+		if nilTest == nil {
+			r.Bad(rule, key+":gap", c.ipos(app), "the fragment taken is never compared with nil: a position that no stored fragment covers is not detected")
+			continue
+		}
+		w := (&Walk{Fn: fn, Assume: assumeAll(atomAssume{mValue(nilTest), vBool(nilTest.Op == token.EQL)})}).After(nilTest)
+		reach := false
+		for _, s := range succ {
+			if w.Reached[s] {
+				reach = true
+			}
+		}
+		r.Check(!reach, rule, key+":gap", c.ipos(nilTest), "a position that no stored fragment covers yields nil", "a position that no stored fragment covers does not stop Pop from returning a message")
+	}
+	if n == 0 {
+		r.Bad(rule, short(fn)+":offset-chain", c.pos(fn.Pos()), "Pop neither walks the fragments by offset nor assembles the body from fragment data by position: the rule cannot recognise how the message is put together")
+	}
+}
+
+// rootValue strips loads, field addresses and fields down to the value they hang off.
+func rootValue(v ssa.Value) ssa.Value {
+	for i := 0; i < 8 && v != nil; i++ {
+		switch x := v.(type) {
+		case *ssa.UnOp:
+			if x.Op != token.MUL {
+				return v
+			}
+			v = x.X
+		case *ssa.FieldAddr:
+			v = x.X
+		case *ssa.Field:
+			v = x.X
+		default:
+			return v
+		}
+	}
+	return v
+}
+
+// sameAccumulator: a and b are the same slice variable across a loop (equal, or joined by phis /
+// appends).
+func sameAccumulator(a, b ssa.Value) bool {
+	reach := func(from ssa.Value) map[ssa.Value]bool {
+		seen := map[ssa.Value]bool{}
+		var visit func(v ssa.Value, d int)
+		visit = func(v ssa.Value, d int) {
+			if v == nil || seen[v] || d > 8 {
+				return
+			}
+			seen[v] = true
+			switch x := v.(type) {
+			case *ssa.Phi:
+				for _, e := range x.Edges {
+					visit(e, d+1)
+				}
+			case *ssa.Call:
+				if calleeName(&x.Call) == "builtin:append" && len(x.Call.Args) > 0 {
+					visit(x.Call.Args[0], d+1)
+				}
+			}
+		}
+		visit(from, 0)
+		return seen
+	}
+	ra, rb := reach(a), reach(b)
+	for v := range ra {
+		if rb[v] {
+			return true
+		}
+	}
+	return false
+}
+
+// selectionGuards: the selection phi takes a stored fragment (an incoming edge whose value is
+// neither nil nor a phi) on no path on which that fragment starts behind the position, and on no
+// path on which it ends at or before it: with every comparison of the candidate's offset (or offset
+// + length) against the position answering that way, none of those edges is taken. Returns a
+// description of what is missing, or "".
+func (c *Ctx) selectionGuards(fn *ssa.Function, sel *ssa.Phi, body ssa.Value, isLenOfBody func(ssa.Value, ssa.Value) bool) string {
+	phis := map[*ssa.Phi]bool{}
+	var collect func(p *ssa.Phi, d int)
+	collect = func(p *ssa.Phi, d int) {
+		if phis[p] || d > 4 {
+			return
+		}
+		phis[p] = true
+		for _, e := range p.Edges {
+			if q, ok := e.(*ssa.Phi); ok {
+				collect(q, d+1)
+			}
+		}
+	}
+	collect(sel, 0)
+	isPos := func(v ssa.Value) bool {
+		v = stripConv(v)
+		if isLenOfBody(v, body) {
+			return true
+		}
+		for _, l := range c.Origins(v, 0) {
+			if isLenOfBody(l, body) {
+				return true
+			}
+		}
+		return false
+	}
+	type assign struct {
+		edge [2]*ssa.BasicBlock
+		cand ssa.Value
+	}
+	var assigns []assign
+	for p := range phis {
+		for i, e := range p.Edges {
+			if _, isPhi := e.(*ssa.Phi); isPhi || isNilConst(e) {
+				continue
+			}
+			assigns = append(assigns, assign{[2]*ssa.BasicBlock{p.Block().Preds[i], p.Block()}, rootValueDeep(e)})
+		}
+	}
+	if len(assigns) == 0 {
+		return "is never selected from the stored fragments"
+	}
+	isCand := func(base ssa.Value) bool {
+		rv := rootValueDeep(base)
+		for _, a := range assigns {
+			if a.cand == rv {
+				return true
+			}
+		}
+		return false
+	}
+	isOff := func(v ssa.Value) bool {
+		_, f, base, ok := fieldLoad(stripConv(v))
+		return ok && f == "FragmentOffset" && isCand(base)
+	}
+	isLenTerm := func(x ssa.Value) bool {
+		x = stripConv(x)
+		if _, f, base, ok := fieldLoad(x); ok && f == "FragmentLength" && isCand(base) {
+			return true
+		}
+		if cl, ok := x.(*ssa.Call); ok && calleeName(&cl.Call) == "builtin:len" {
+			if _, f, base, ok := fieldLoad(cl.Call.Args[0]); ok && f == "data" && isCand(base) {
+				return true
+			}
+		}
+		return false
+	}
+	isEnd := func(v ssa.Value) bool {
+		ad, ok := stripConv(v).(*ssa.BinOp)
+		if !ok || ad.Op != token.ADD {
+			return false
+		}
+		return (isOff(ad.X) && isLenTerm(ad.Y)) || (isOff(ad.Y) && isLenTerm(ad.X))
+	}
+	// value of "L op R" when L > R ("gt"), L < R ("lt") or L == R ("eq")
+	ordVal := func(op token.Token, rel string) (bool, bool) {
+		switch op {
+		case token.GTR:
+			return rel == "gt", true
+		case token.GEQ:
+			return rel != "lt", true
+		case token.LSS:
+			return rel == "lt", true
+		case token.LEQ:
+			return rel != "gt", true
+		case token.EQL:
+			return rel == "eq", true
+		case token.NEQ:
+			return rel != "eq", true
+		}
+		return false, false
+	}
+	flip := map[string]string{"gt": "lt", "lt": "gt", "eq": "eq"}
+	// kind "start": offset > position; "end": offset+length < position; "end-eq": offset+length == position
+	run := func(kind string) string {
+		matched := 0
+		w := &Walk{Fn: fn, Assume: func(v ssa.Value) (Val, bool) {
+			bo, ok := v.(*ssa.BinOp)
+			if !ok {
+				return unknown, false
+			}
+			isTerm := isOff
+			rel := "gt" // term relative to position
+			switch kind {
+			case "end":
+				isTerm, rel = isEnd, "lt"
+			case "end-eq":
+				isTerm, rel = isEnd, "eq"
+			}
+			switch {
+			case isTerm(bo.X) && isPos(bo.Y):
+			case isPos(bo.X) && isTerm(bo.Y):
+				rel = flip[rel]
+			default:
+				return unknown, false
+			}
+			val, ok := ordVal(bo.Op, rel)
+			if !ok {
+				return unknown, false
+			}
+			matched++
+			return vBool(val), true
+		}}
+		w.FromEntry()
+		if matched == 0 {
+			if kind == "start" {
+				return "may start behind the position (its offset is never compared with the position)"
+			}
+			return "may end at or before the position (offset + length is never compared with the position)"
+		}
+		for _, a := range assigns {
+			if w.Edges[a.edge] {
+				if kind == "start" {
+					return "is taken although it starts behind the position"
+				}
+				return "is taken although it ends at or before the position"
+			}
+		}
+		return ""
+	}
+	for _, kind := range []string{"start", "end", "end-eq"} {
+		if m := run(kind); m != "" {
+			return m
+		}
+	}
+	return ""
+}
+
+// rootValueDeep is rootValue that also looks through a local copy of a struct (a cell with one
+// store of a loaded value).
+func rootValueDeep(v ssa.Value) ssa.Value {
+	for i := 0; i < 6; i++ {
+		v = rootValue(v)
+		al, ok := v.(*ssa.Alloc)
+		if !ok || al.Referrers() == nil {
+			return v
+		}
+		var src ssa.Value
+		n := 0
+		for _, ref := range *al.Referrers() {
+			if st, ok := ref.(*ssa.Store); ok && st.Addr == ssa.Value(al) {
+				n++
+				src = st.Val
+			}
+		}
+		if n != 1 {
+			return v
+		}
+		v = src
+	}
+	return v
+}
+
+// startsEmpty: every non-append, non-phi source of the accumulated slice is empty (nil, or made
+// with length 0).
+func startsEmpty(body ssa.Value) bool {
+	seen := map[ssa.Value]bool{}
+	ok := true
+	var visit func(v ssa.Value, d int)
+	visit = func(v ssa.Value, d int) {
+		if v == nil || seen[v] || d > 8 {
+			return
+		}
+		seen[v] = true
+		switch x := v.(type) {
+		case *ssa.Phi:
+			for _, e := range x.Edges {
+				visit(e, d+1)
+			}
+		case *ssa.Call:
+			if calleeName(&x.Call) == "builtin:append" && len(x.Call.Args) > 0 {
+				visit(x.Call.Args[0], d+1)
+				return
+			}
+			ok = false
+		case *ssa.MakeSlice:
+			if k, isK := constInt(x.Len); !isK || k != 0 {
+				ok = false
+			}
+		case *ssa.Const:
+			if !isNilConst(x) {
+				ok = false
+			}
+		default:
+			ok = false
+		}
+	}
+	visit(body, 0)
+	return ok
 }
